@@ -29,7 +29,7 @@ def run(s):
     else:
         K.story_grid(s, 5, kmax=3, full=True)
         K.story_grid(s, 6, layouts=('before', 'between'), kmax=2, full=False, names=K.HOSTILE_NAMES)
-        K.fuzz(s, 6000, K.kind_weights(story=1.0, item=0.15, other=0.2), steps=(5, 40))
+        K.fuzz(s, 15000, K.kind_weights(story=1.0, item=0.15, other=0.2), steps=(5, 40))
 
 
 replay = K.replay_transition
